@@ -130,7 +130,20 @@ Definition c01_pairs (keyargs : list (string * string * string)) : list stack_pa
     (* xtcp: visitor frpc <-> owner frpc over the hole-punched tunnel, keyed by the secret key *)
     {| sp_a := ("client/visitor/xtcp.go", "handleConn"); sp_ka := None;
        sp_b := ("client/proxy/proxy.go", "HandleTCPWorkConnection");
-       sp_kb := flat_opt (callers_class "client/proxy/xtcp.go" keyargs); sp_class := KSecret |} ].
+       sp_kb := flat_opt (callers_class "client/proxy/xtcp.go" keyargs); sp_class := KSecret |};
+    (* the remaining sites of the table that share these ends (http, udp, sudp: C02, C03, C05 rely on the same
+       mirror): http proxy leg frps <-> frpc *)
+    {| sp_a := ("server/proxy/http.go", "GetRealConn"); sp_ka := None;
+       sp_b := ("client/proxy/proxy.go", "HandleTCPWorkConnection");
+       sp_kb := flat_opt (callers_class "client/proxy/proxy.go" keyargs); sp_class := KToken |};
+    (* udp proxy leg *)
+    {| sp_a := ("server/proxy/udp.go", "Run"); sp_ka := None;
+       sp_b := ("client/proxy/udp.go", "InWorkConn"); sp_kb := None; sp_class := KToken |};
+    (* sudp: proxy leg (frps side is the common tcp handler) and visitor leg *)
+    {| sp_a := ("server/proxy/proxy.go", "handleUserTCPConnection"); sp_ka := None;
+       sp_b := ("client/proxy/sudp.go", "InWorkConn"); sp_kb := None; sp_class := KToken |};
+    {| sp_a := ("client/visitor/sudp.go", "getNewVisitorConn"); sp_ka := None;
+       sp_b := ("server/visitor/visitor.go", "NewConn"); sp_kb := None; sp_class := KSecret |} ].
 
 Definition bools := [true; false].
 
